@@ -8,6 +8,7 @@ package c05
 import (
 	"bytes"
 	"fmt"
+	"reflect"
 	"sort"
 	"sync"
 
@@ -99,6 +100,7 @@ func loadSynth(sp synthfont.Spec) (*fontEntry, error) {
 			}
 		}
 	}
+	fe.device = hasHintingDevices(face)
 	if len(synthCache) >= 512 {
 		synthCache = map[synthfont.Spec]*fontEntry{}
 	}
@@ -180,6 +182,7 @@ func genSynthCase(t *rapid.T) (*fontEntry, *Case) {
 	if rapid.IntRange(0, 3).Draw(t, "produceUnsafeToConcat") == 0 {
 		c.Flags |= 0x40
 	}
+	genInstanceExtras(t, fe, c)
 	return fe, c
 }
 
@@ -212,4 +215,49 @@ func synthLabels(fe *fontEntry, c *Case, dir int) []string {
 		out = append(out, "synth_vertical_direction")
 	}
 	return out
+}
+
+// hintingDevices counts the hinting Device tables (ppem-indexed deltas) reachable from v: value
+// records and anchors of GPOS, caret values of GDEF; class-based pair records are kept as raw
+// bytes by the loader, there the value format tells.
+func hintingDevices(v reflect.Value, depth int, n *int) {
+	if depth > 30 || *n > 0 {
+		return
+	}
+	if v.Type() == reflect.TypeOf(tables.ValueFormat(0)) && v.Uint()&0x00F0 != 0 {
+		*n++
+		return
+	}
+	switch v.Kind() {
+	case reflect.Interface, reflect.Ptr:
+		if !v.IsNil() {
+			hintingDevices(v.Elem(), depth+1, n)
+		}
+	case reflect.Struct:
+		if v.Type() == reflect.TypeOf(tables.DeviceHinting{}) {
+			*n++
+			return
+		}
+		for i := 0; i < v.NumField(); i++ {
+			hintingDevices(v.Field(i), depth+1, n)
+		}
+	case reflect.Slice, reflect.Array:
+		if k := v.Type().Elem().Kind(); k == reflect.Uint8 || k == reflect.Uint16 || k == reflect.Int8 || k == reflect.Int16 || k == reflect.Uint32 {
+			return
+		}
+		for i := 0; i < v.Len(); i++ {
+			hintingDevices(v.Index(i), depth+1, n)
+		}
+	}
+}
+
+// hasHintingDevices: GPOS or GDEF of a non-variable face carry hinting Device tables (in a
+// variable font the same offsets are variation indexes).
+func hasHintingDevices(face *font.Face) bool {
+	n := 0
+	hintingDevices(reflect.ValueOf(face.GPOS.Lookups), 0, &n)
+	if n == 0 {
+		hintingDevices(reflect.ValueOf(face.GDEF), 0, &n)
+	}
+	return n > 0
 }
